@@ -11,6 +11,19 @@ def build(c):
     from odc.geo.geobox import GeoBox
     from odc.geo.geom import BoundingBox
 
+    if c["pair"].endswith("polar"):
+        import pyproj
+
+        s, d = c["pair"][:-5].split(">")
+        south = d == "3031"
+        lat0, lat1 = (-89.5, -78.0) if south else (78.0, 89.5)
+        src = GeoBox.from_bbox((-90, lat0, 90, lat1), "epsg:4326", shape=(46, 90), tight=True)
+        # tile centre: on the meridian 10E at 87 degrees, moved by dx / dy tile widths (1 km pixels; stays poleward of ~84 degrees)
+        cx, cy = pyproj.Transformer.from_crs(4326, int(d), always_xy=True).transform(10.0, -87.0 if south else 87.0)
+        n, px = {"same": (40, 1000.0), "coarser": (24, 4000.0)}[c["zoom"]]
+        x0, y0 = cx + c["dx"] * 30000.0, cy + c["dy"] * 30000.0
+        dst = GeoBox.from_bbox(BoundingBox(x0, y0, x0 + n * px, y0 + n * px, f"epsg:{d}"), resolution=px, tight=True)
+        return src, dst
     if c["pair"].endswith("big"):
         s, d = c["pair"][:-3].split(">")
         sbox, sshape = ((-3000000, -4000000, 1000000, -500000), (90, 90)) if s == "3575" else ((-20, 35, 40, 70), (70, 120))
@@ -145,8 +158,8 @@ def run_cross(ctx):
     res, cases = ctx.model_check("warp/CrossGen.tla", "CrossGen.cfg", emit=True, timeout=600)
     cases.sort(key=lambda c: json.dumps(c, sort_keys=True))
     ctx.extra["cross_crs_cases_total"] = len(cases)
-    big = [c for c in cases if c["pair"].endswith("big")]
-    cases = ctx.subsample([c for c in cases if not c["pair"].endswith("big")], 600 if ctx.quick() else 10 ** 6) + big
+    big = [c for c in cases if c["pair"].endswith(("big", "polar"))]
+    cases = ctx.subsample([c for c in cases if not c["pair"].endswith(("big", "polar"))], 600 if ctx.quick() else 10 ** 6) + big
     events = ctx.pmap(execute, cases)
     verdicts = _validate(ctx, events)
     for ev, v in zip(events, verdicts):
